@@ -16,13 +16,18 @@ HR=$(repohash)
 HV=$(verifhash)
 log() { echo "[build] $*" >&2; }
 fail() { echo "[build] FAILED: $*" >&2; exit 2; }
-D=$B/ddp
-if [ -f "$B/.hash_repo" ] && [ "$(cat "$B/.hash_repo")" = "$HR" ] && [ -x "$B/ddp/bin/kddp" ]; then REPO_OK=1; else REPO_OK=0; fi
-if [ $REPO_OK = 1 ] && [ -f "$B/.hash_verif" ] && [ "$(cat "$B/.hash_verif")" = "$HV" ] && [ -x "$B/ddpmc" ]; then exit 0; fi
-rm -f "$B/.hash_verif"
+# Every build result lives in a directory named after the hash of its inputs and is never modified
+# afterwards, so a check that is still running is not disturbed when the tree changes and another
+# check rebuilds:  $B/t/<repo hash>/ddp (install tree)   $B/v/<verif hash>/{ddpmc,c/,overlay.json}
+T=$B/t/$HR; V=$B/v/$HV; D=$T/ddp
+# the caller evals our stdout (nothing else is ever written to stdout)
+emit() { printf 'export DDPPATH=%s\nexport VERIF_VDIR=%s\n' "$D" "$V"; }
+if [ -f "$T/.ok" ]; then REPO_OK=1; else REPO_OK=0; fi
+if [ $REPO_OK = 1 ] && [ -f "$V/.ok" ]; then touch "$T" "$V"; emit; exit 0; fi
+# drop results that have not been used for 3 hours
+find "$B/t" "$B/v" -mindepth 1 -maxdepth 1 -type d -mmin +180 ! -path "$T" ! -path "$V" -exec rm -rf {} + 2>/dev/null
 if [ $REPO_OK = 0 ]; then
-rm -f "$B/.hash_repo"
-rm -rf "$D" "$B/obj"; mkdir -p "$D/bin" "$D/lib" "$B/obj"
+rm -rf "$T"; mkdir -p "$D/bin" "$D/lib" "$T/obj"
 
 # ---- locale (de_DE.UTF-8 = C.utf8 with decimal comma) -------------
 if [ ! -f "$B/locale/de_DE.UTF-8/LC_NUMERIC" ]; then
@@ -46,15 +51,15 @@ RT=$REPO/lib/runtime; ST=$REPO/lib/stdlib
 CCF="-c -Wall -Wno-format -O2 -std=c11 -pedantic -D_POSIX_C_SOURCE=200809L"
 build_c() { # variant extraflags
   local v=$1; shift
-  mkdir -p "$B/obj/$v/rt" "$B/obj/$v/st"
+  mkdir -p "$T/obj/$v/rt" "$T/obj/$v/st"
   local pids=()
   for f in $(cd "$RT" && find source/DDP -name '*.c'); do
-    o="$B/obj/$v/rt/$(echo "$f" | tr / _ ).o"
+    o="$T/obj/$v/rt/$(echo "$f" | tr / _ ).o"
     gcc $CCF "$@" -I"$RT/include" -o "$o" "$RT/$f" & pids+=($!)
   done
-  gcc $CCF "$@" -I"$RT/include" -o "$B/obj/$v/main.o" "$RT/source/main.c" & pids+=($!)
+  gcc $CCF "$@" -I"$RT/include" -o "$T/obj/$v/main.o" "$RT/source/main.c" & pids+=($!)
   for f in $(cd "$ST" && find source/DDP -name '*.c' ! -name regex.c ! -name compression.c); do
-    o="$B/obj/$v/st/$(echo "$f" | tr / _ ).o"
+    o="$T/obj/$v/st/$(echo "$f" | tr / _ ).o"
     gcc $CCF "$@" -I"$ST/include" -I"$RT/include" -o "$o" "$ST/$f" & pids+=($!)
   done
   for p in "${pids[@]}"; do wait $p || return 1; done
@@ -63,14 +68,14 @@ build_c() { # variant extraflags
 log "runtime/stdlib C"
 build_c plain || fail "C runtime/stdlib"
 build_c asan -fsanitize=address -fno-omit-frame-pointer -g || fail "C runtime/stdlib asan"
-ar rcs "$D/lib/libddpruntime.a" "$B"/obj/plain/rt/*.o && ar rcs "$D/lib/libddpstdlib.a" "$B"/obj/plain/st/*.o || fail ar
-cp "$B/obj/plain/main.o" "$D/lib/main.o"
+ar rcs "$D/lib/libddpruntime.a" "$T"/obj/plain/rt/*.o && ar rcs "$D/lib/libddpstdlib.a" "$T"/obj/plain/st/*.o || fail ar
+cp "$T/obj/plain/main.o" "$D/lib/main.o"
 mkdir -p "$D/libasan"
-ar rcs "$D/libasan/libddpruntime.a" "$B"/obj/asan/rt/*.o && ar rcs "$D/libasan/libddpstdlib.a" "$B"/obj/asan/st/*.o || fail ar
-cp "$B/obj/asan/main.o" "$D/libasan/main.o"
+ar rcs "$D/libasan/libddpruntime.a" "$T"/obj/asan/rt/*.o && ar rcs "$D/libasan/libddpstdlib.a" "$T"/obj/asan/st/*.o || fail ar
+cp "$T/obj/asan/main.o" "$D/libasan/main.o"
 # stub archives for the libraries whose sources (git submodules) are absent
-echo 'static int ddp_verif_stub;' > "$B/obj/stub.c"; gcc -c -o "$B/obj/stub.o" "$B/obj/stub.c"
-for l in pcre2-8 archive z lzma bz2 lz4; do ar rcs "$D/lib/lib$l.a" "$B/obj/stub.o"; cp "$D/lib/lib$l.a" "$D/libasan/"; done
+echo 'static int ddp_verif_stub;' > "$T/obj/stub.c"; gcc -c -o "$T/obj/stub.o" "$T/obj/stub.c"
+for l in pcre2-8 archive z lzma bz2 lz4; do ar rcs "$D/lib/lib$l.a" "$T/obj/stub.o"; cp "$D/lib/lib$l.a" "$D/libasan/"; done
 mkdir -p "$D/lib/runtime" "$D/lib/stdlib"
 cp -r "$RT/include" "$D/lib/runtime/" && cp -r "$ST/include" "$D/lib/stdlib/" || fail headers
 cp -r "$ST/Duden" "$D/Duden" || fail duden
@@ -80,18 +85,22 @@ log "list defs"
 "$D/bin/kddp" dump-list-defs -o "$D/lib/ddp_list_types_defs" --llvm-ir --object >&2 || fail "dump-list-defs"
 cp "$D/lib/ddp_list_types_defs.o" "$D/lib/ddp_list_types_defs.ll" "$D/libasan/"
 
-echo "$HR" > "$B/.hash_repo"
+touch "$T/.ok"
 fi # REPO_OK
+touch "$T" # mark as recently used
+rm -rf "$V"; mkdir -p "$V/c"
+export DDPPATH=$D VERIF_VDIR=$V
 
 # ---- C harnesses ---------------------------------------------------
 if [ -f "$VERIF/c/build.sh" ]; then log "c harnesses"; bash "$VERIF/c/build.sh" >&2 || fail "c harness"; fi
 
 # ---- ddpmc (links /repo's packages, overlay adds hooks/) -----------
 log "ddpmc"
-python3 "$VERIF/scripts/mkoverlay.py" > "$B/overlay.json" || fail overlay
+python3 "$VERIF/scripts/mkoverlay.py" > "$V/overlay.json" || fail overlay
 # the module file is generated so that REPO may point to a scratch copy (self-test of mutants)
-sed "s#=> /repo#=> $REPO#" "$VERIF/mc/go.mod" > "$B/mc.go.mod" && cp "$REPO/go.sum" "$B/mc.go.sum" || fail modfile
-(cd "$VERIF/mc" && go build -modfile="$B/mc.go.mod" -tags "byollvm verif" -overlay "$B/overlay.json" -o "$B/ddpmc" ./cmd/ddpmc) || fail "go build ddpmc"
-echo "$HV" > "$B/.hash_verif"
+sed "s#=> /repo#=> $REPO#" "$VERIF/mc/go.mod" > "$V/mc.go.mod" && cp "$REPO/go.sum" "$V/mc.go.sum" || fail modfile
+(cd "$VERIF/mc" && go build -modfile="$V/mc.go.mod" -tags "byollvm verif" -overlay "$V/overlay.json" -o "$V/ddpmc" ./cmd/ddpmc) || fail "go build ddpmc"
+touch "$V/.ok"
 log "done"
+emit
 exit 0
